@@ -115,7 +115,9 @@ impl<'h> FindMatchesImpl<'h> {
     /// being returned.
     pub(crate) fn peek_n(&mut self, n: usize) -> PeekResult {
         let mut char_indices = self.char_indices.clone();
-        let mut matches = Vec::with_capacity(n);
+        // `n` is caller supplied and may be huge (e.g. `usize::MAX` to peek everything that is left);
+        // a match consumes at least one byte, so the input length bounds the number of matches.
+        let mut matches = Vec::with_capacity(n.min(self.input.len()));
         let mut mode_switch = false;
         let mut new_mode = 0;
         // The indices of the char_indices iterator are relative to the current offset.
